@@ -242,6 +242,28 @@ def who_may_write(model, R):
     R.ok('WHO-MAY-WRITE', 'package', 'concepts/', f'{n} write sites of rank/link attributes, all in constructing functions')
 
 
+def raw_is_forwarded(model, R):
+    """The loaders that promise to sort an unordered serialisation (``raw=True``) hand their flag down to _fromlist."""
+    fj = model.func('contexts.Data.fromjson')
+    fd = model.func('contexts.Data.fromdict')
+    for f, callee, param in ((fj, 'fromdict', 'raw'), (fd, '_fromlist', 'unordered')):
+        if 'raw' not in f.params:
+            R.unknown('ORDER', f, f.node, f'{f.name}: raw parameter', 'no parameter raw')
+            continue
+        calls = [n for n in walk(f.body) if isinstance(n, ast.Call) and (chain(n.func) or [''])[-1] == callee]
+        if len(calls) != 1:
+            R.unknown('ORDER', f, f.node, f'{f.name}: call of {callee}', f'{len(calls)} calls')
+            continue
+        bound = model.bind(f, calls[0])
+        if bound is None:
+            R.unknown('ORDER', f, calls[0], f'{f.name}: call of {callee}', 'callee not resolved')
+            continue
+        v = bound.get(param)
+        R.decided(v is not None and name_is(v, 'raw'), 'ORDER', f, calls[0], f'{f.name}: raw is handed to {callee}({param}=...)', f'{param}=raw',
+                  f'{param}={src(v)}' if v is not None else f'{param} not passed (default: the stored order is trusted)',
+                  extra={'consequence': 'an unordered serialisation loaded with raw=True is not sorted: iteration order, indexes and neighbour tuples are those of the file'})
+
+
 def run(model, R):
     R.floor('ORDER', 22)
     R.guard('ORDER', None, 'lindig.lattice', lindig_tpl.lattice_template, model, R, {'order': 'ORDER'})
@@ -254,4 +276,5 @@ def run(model, R):
     R.guard('ORDER', None, '__setstate__', setstate_passes_state, model, R)
     from .common import no_unpickle_shortcut
     R.guard('ORDER', None, '_init call sites', no_unpickle_shortcut, model, R, 'ORDER')
+    R.guard('ORDER', None, 'raw flag', raw_is_forwarded, model, R)
     return __doc__.strip()
